@@ -12,6 +12,7 @@ import (
 
 	_ "github.com/xtaci/kcp-go/v5"
 
+	"verif/explore"
 	"verif/hx"
 )
 
@@ -24,6 +25,7 @@ func main() {
 	seed := flag.Int64("seed", 0, "seed")
 	budget := flag.Duration("budget", 60*time.Second, "time budget for the whole check in this shard")
 	replay := flag.String("replay", "", "replay file")
+	memcap := flag.Int64("memcap", 0, "resident-set size in bytes at which exploration stops gracefully (0 = none)")
 	only := flag.String("unit", "", "only units with this name prefix")
 	list := flag.Bool("list", false, "list registered checks")
 	flag.Parse()
@@ -34,6 +36,7 @@ func main() {
 		return
 	}
 	debug.SetGCPercent(400)
+	explore.MemCapBytes = *memcap
 	ctx := &hx.Ctx{Prop: *prop, Tier: *tier, Shard: *shard, Of: *of, Seed: *seed, Deadline: time.Now().Add(*budget), OnlyUnit: *only,
 		Out: &hx.ShardOut{Property: *prop, Tier: *tier, Shard: *shard, Of: *of}}
 	if *replay != "" {
